@@ -77,24 +77,28 @@ theorem sowCols_bindW (w : Nat) : ∀ p : SProg, sowCols (bindW w p) = sowCols p
   | .param _ _ _ => rfl
   | .skip => rfl | .bind _ => rfl | .ret _ => rfl | .var _ _ _ _ => rfl | .get _ _ => rfl
   | .put _ _ _ _ => rfl | .sow _ _ _ => rfl | .perturb _ _ _ => rfl | .child _ _ _ => rfl | .call _ _ _ => rfl
+  | .nested _ _ _ _ => rfl
 
 theorem otherCols_bindW (w : Nat) : ∀ p : SProg, otherCols (bindW w p) = otherCols p
   | .seq a b => by simp [bindW, otherCols, otherCols_bindW w a, otherCols_bindW w b]
   | .param _ _ _ => rfl
   | .skip => rfl | .bind _ => rfl | .ret _ => rfl | .var _ _ _ _ => rfl | .get _ _ => rfl
   | .put _ _ _ _ => rfl | .sow _ _ _ => rfl | .perturb _ _ _ => rfl | .child _ _ _ => rfl | .call _ _ _ => rfl
+  | .nested _ _ _ _ => rfl
 
 theorem eraseSow_bindW (w : Nat) : ∀ p : SProg, eraseSow (bindW w p) = bindW w (eraseSow p)
   | .seq a b => by simp [bindW, eraseSow, eraseSow_bindW w a, eraseSow_bindW w b]
   | .param _ _ _ => rfl
   | .skip => rfl | .bind _ => rfl | .ret _ => rfl | .var _ _ _ _ => rfl | .get _ _ => rfl
   | .put _ _ _ _ => rfl | .sow _ _ _ => rfl | .perturb _ _ _ => rfl | .child _ _ _ => rfl | .call _ _ _ => rfl
+  | .nested _ _ _ _ => rfl
 
 theorem declOnly_bindW (w : Nat) : ∀ p : SProg, declOnly (bindW w p) = declOnly p
   | .seq a b => by simp [bindW, declOnly, declOnly_bindW w a, declOnly_bindW w b]
   | .param _ _ _ => rfl
   | .skip => rfl | .bind _ => rfl | .ret _ => rfl | .var _ _ _ _ => rfl | .get _ _ => rfl
   | .put _ _ _ _ => rfl | .sow _ _ _ => rfl | .perturb _ _ _ => rfl | .child _ _ _ => rfl | .call _ _ _ => rfl
+  | .nested _ _ _ _ => rfl
 
 theorem sowCols_bindArg (w : Option Nat) (p : SProg) : sowCols (bindArg w p) = sowCols p := by
   cases w <;> simp [bindArg, sowCols_bindW]
@@ -388,6 +392,14 @@ theorem eval_frame (cfg : Cfg) : ∀ (fuel : Nat) (p : SProg) (π : Path) (x : I
             · rename_i heq2; rw [heq2] at f2; exact f1.trans f2
             · rename_i heq2; rw [heq2] at f2; exact f1.trans f2
 
+    | nested body m V a =>
+      simp only [eval]
+      split
+      · exact Frame.refl s
+      · split
+        · exact Frame.refl s
+        · split <;> exact Frame.refl s
+
 theorem runTop_frame (cfg : Cfg) (fuel : Nat) (p : SProg) (x : Int) (s : Store) :
     Frame s (runTop cfg fuel p x s).2 := by
   unfold runTop
@@ -609,6 +621,14 @@ theorem eval_rel (hR : StepRel R) (cfg : Cfg) : ∀ (fuel : Nat) (p : SProg) (π
             split
             · rename_i heq2; rw [heq2] at f2; exact hR.child _ _ _ _ (hR.trans _ _ _ _ f1 f2)
             · rename_i heq2; rw [heq2] at f2; exact hR.child _ _ _ _ (hR.trans _ _ _ _ f1 f2)
+
+    | nested body m V a =>
+      simp only [eval]
+      split
+      · exact hR.refl π s
+      · split
+        · exact hR.refl π s
+        · split <;> exact hR.refl π s
 
 theorem runTop_rel (hR : StepRel R) (cfg : Cfg) (fuel : Nat) (p : SProg) (x : Int) (s : Store) :
     R [] s (runTop cfg fuel p x s).2 := by
@@ -841,15 +861,26 @@ theorem eval_res_mono (cfg : Cfg) : ∀ (fuel : Nat) (p : SProg) (π : Path) (x 
               rw [← h.1]; exact fun _ hx => hx
 
 
+    | nested body m V a =>
+      simp only [eval] at h
+      split at h
+      · simp at h
+      · split at h
+        · simp at h
+        · split at h
+          · simp at h
+          · simp only [Prod.mk.injEq, Except.ok.injEq] at h
+            rw [← h.1]; exact fun _ hx => hx
+
 /-! ### fuel: a run that did not run out of fuel is unchanged by more fuel -/
 
-theorem eval_fuel_mono (cfg : Cfg) : ∀ (fuel : Nat) (p : SProg) (π : Path) (x : Int) (l : Local) (s : Store),
+theorem eval_fuel_mono : ∀ (fuel : Nat) (cfg : Cfg) (p : SProg) (π : Path) (x : Int) (l : Local) (s : Store),
     (eval cfg fuel p π x l s).1 ≠ .error .fuel → eval cfg (fuel + 1) p π x l s = eval cfg fuel p π x l s := by
   intro fuel
   induction fuel with
-  | zero => intro p π x l s h; simp [eval] at h
+  | zero => intro cfg p π x l s h; simp [eval] at h
   | succ fuel ih =>
-    intro p π x l s h
+    intro cfg p π x l s h
     cases p with
     | seq a b =>
       simp only [eval] at h
@@ -863,12 +894,12 @@ theorem eval_fuel_mono (cfg : Cfg) : ∀ (fuel : Nat) (p : SProg) (π : Path) (x
           cases res with
           | error e => simpa using h
           | ok l1 => simp
-        rw [ih a π x l s hane, ha]
+        rw [ih cfg a π x l s hane, ha]
         cases res with
         | error e => rfl
         | ok l1 =>
           simp only at h ⊢
-          exact ih b π x l1 s1 h
+          exact ih cfg b π x l1 s1 h
     | call slot a w =>
       simp only [eval] at h
       rw [eval, eval]
@@ -889,7 +920,7 @@ theorem eval_fuel_mono (cfg : Cfg) : ∀ (fuel : Nat) (p : SProg) (π : Path) (x
               cases res with
               | error e => simpa using h
               | ok l1 => simp
-            rw [ih (bindArg w k.body) (π ++ [k.name]) av {} s hbne, hb]
+            rw [ih cfg (bindArg w k.body) (π ++ [k.name]) av {} s hbne, hb]
     | skip => rw [eval, eval]
     | bind e => rw [eval, eval]
     | ret e => rw [eval, eval]
@@ -900,6 +931,27 @@ theorem eval_fuel_mono (cfg : Cfg) : ∀ (fuel : Nat) (p : SProg) (π : Path) (x
     | sow col n e => rw [eval, eval]
     | perturb col n e => rw [eval, eval]
     | child cls name body => rw [eval, eval]
+
+    | nested body m V a =>
+      simp only [eval] at h
+      rw [eval, eval]
+      simp only
+      cases he : evalE x l.env a with
+      | error err => rfl
+      | ok av =>
+        simp only [he] at h ⊢
+        by_cases hbs : badStructure V = true
+        · simp [hbs]
+        · simp only [hbs, Bool.false_eq_true, if_false] at h ⊢
+          cases hb : eval (nestedCfg cfg) fuel body [] av {} (Scope.bind m V ["params"]) with
+          | mk res s1 =>
+            rw [hb] at h
+            have hbne : (eval (nestedCfg cfg) fuel body [] av {} (Scope.bind m V ["params"])).1 ≠ .error .fuel := by
+              rw [hb]
+              cases res with
+              | error e => simpa using h
+              | ok l1 => simp
+            rw [ih (nestedCfg cfg) body [] av {} (Scope.bind m V ["params"]) hbne, hb]
 
 /-! ### no variable is ever dropped -/
 
